@@ -2,62 +2,9 @@ import J5V.Go.Hex
 import J5V.Bcl.Fmt
 import J5V.Bcl.Diff
 import J5V.Bcl.ErrPrint
+import J5V.Bcl.UnicodeTbl
 /-! Line-protocol driver for the BCL models (core only); protocol: `harness/PROTOCOL-bcl.md`. -/
 open J5V.Go J5V.Bcl
-
-/-! ## Unicode table -/
-
-structure Tbl where
-  space : Array (Nat × Nat)
-  digit : Array (Nat × Nat)
-  letter : Array (Nat × Nat)
-  print : Array (Nat × Nat)
-
-partial def inRanges (a : Array (Nat × Nat)) (r : Nat) : Bool :=
-  let rec go (lo hi : Nat) : Bool :=
-    if lo ≥ hi then false
-    else
-      let mid := (lo + hi) / 2
-      let (l, h) := a[mid]!
-      if r < l then go lo mid else if r > h then go (mid + 1) hi else true
-  go 0 a.size
-
-def Tbl.cls (t : Tbl) : Cls :=
-  ⟨inRanges t.space, inRanges t.digit, inRanges t.letter, inRanges t.print⟩
-
-def parseRanges (ls : List String) (n : Nat) : Option (Array (Nat × Nat) × List String) :=
-  let rec go : Nat → List String → Array (Nat × Nat) → Option (Array (Nat × Nat) × List String)
-    | 0, ls, acc => some (acc, ls)
-    | k + 1, l :: ls, acc =>
-      match l.splitOn " " with
-      | [a, b] => match a.toNat?, b.toNat? with
-        | some x, some y => go k ls (acc.push (x, y))
-        | _, _ => none
-      | _ => none
-    | _ + 1, [], _ => none
-  go n ls #[]
-
-def parseClass (name : String) (ls : List String) : Option (Array (Nat × Nat) × List String) :=
-  match ls with
-  | h :: rest =>
-    match h.splitOn " " with
-    | [nm, n] => if nm == name then n.toNat?.bind (parseRanges rest) else none
-    | _ => none
-  | [] => none
-
-def parseTbl (content : String) : Option Tbl := do
-  let ls := (content.splitOn "\n").map (fun (l : String) => l.trimAscii.toString)
-  match ls with
-  | hdr :: rest =>
-    if !hdr.startsWith "j5v-unicode-tbl 1" then none
-    let (sp, r1) ← parseClass "space" rest
-    let (dg, r2) ← parseClass "digit" r1
-    let (lt, r3) ← parseClass "letter" r2
-    let (pr, r4) ← parseClass "print" r3
-    match r4 with
-    | e :: _ => if e == "end" then some ⟨sp, dg, lt, pr⟩ else none
-    | [] => none
-  | [] => none
 
 /-! ## Rendering of results -/
 
@@ -233,13 +180,7 @@ partial def loop (f : String → String) (h : IO.FS.Stream) (out : IO.FS.Stream)
 
 def main : IO Unit := do
   let out ← IO.getStdout
-  let env ← IO.getEnv "VERIF_UNICODE_TBL"
-  let path := match env with
-    | some p => if p.isEmpty then "/verif/.work/unicode.tbl" else p
-    | none => "/verif/.work/unicode.tbl"
-  let tbl ← (do
-    let content ← IO.FS.readFile path
-    pure (parseTbl content)) <|> pure none
+  let tbl ← loadTbl
   match tbl with
   | none => loop (fun _ => "bad-table") (← IO.getStdin) out
   | some t => loop (step t.cls) (← IO.getStdin) out
